@@ -604,49 +604,51 @@ func (server *SugarDB) adjustMemoryUsage(ctx context.Context) error {
 		// Remove random keys until we're below the max memory limit
 		// or there are no more keys remaining.
 		for {
-			// If there are no keys, return error
-			if len(server.store) == 0 {
-				err := errors.New("no keys to evict")
-				return fmt.Errorf("adjustMemoryUsage -> all keys random: %+v", err)
+			// If there are no keys left in this database, there is nothing more to evict here.
+			if len(server.store[database]) == 0 {
+				return nil
 			}
 			// Get random key in the database
-			idx := rand.Intn(len(server.store))
-			for db, data := range server.store {
-				if db == database {
-					for key, _ := range data {
-						if idx == 0 {
-							if !server.isInCluster() {
-								// If in standalone mode, directly delete the key
-								if err := server.deleteKey(ctx, key); err != nil {
-									log.Printf("Evicting key %v from database %v \n", key, db)
-
-									return fmt.Errorf("adjustMemoryUsage -> all keys random: %+v", err)
-								}
-							} else if server.isInCluster() && server.raft.IsRaftLeader() {
-								if err := server.raftApplyDeleteKey(ctx, key); err != nil {
-
-									return fmt.Errorf("adjustMemoryUsage -> all keys random: %+v", err)
-								}
-							}
-							// Run garbage collection
-							runtime.GC()
-							// Return if we're below max memory
-							if uint64(server.memUsed) < server.config.MaxMemory {
-								return nil
-							}
-						}
-						idx--
-					}
+			idx := rand.Intn(len(server.store[database]))
+			var key string
+			for k := range server.store[database] {
+				if idx == 0 {
+					key = k
+					break
 				}
+				idx--
+			}
+			if !server.isInCluster() {
+				// If in standalone mode, directly delete the key
+				if err := server.deleteKey(ctx, key); err != nil {
+					log.Printf("Evicting key %v from database %v \n", key, database)
+
+					return fmt.Errorf("adjustMemoryUsage -> all keys random: %+v", err)
+				}
+			} else if server.isInCluster() && server.raft.IsRaftLeader() {
+				if err := server.raftApplyDeleteKey(ctx, key); err != nil {
+
+					return fmt.Errorf("adjustMemoryUsage -> all keys random: %+v", err)
+				}
+			}
+			// Run garbage collection
+			runtime.GC()
+			// Return if we're below max memory
+			if uint64(server.memUsed) < server.config.MaxMemory {
+				return nil
 			}
 		}
 	case slices.Contains([]string{constants.VolatileRandom}, strings.ToLower(server.config.EvictionPolicy)):
 		// Remove random keys with an associated expiry time until we're below the max memory limit
 		// or there are no more keys with expiry time.
 		for {
-			// Get random volatile key
+			// Get random volatile key of this database. If there is none left, there is nothing more to evict here.
 			server.keysWithExpiry.rwMutex.RLock()
-			idx := rand.Intn(len(server.keysWithExpiry.keys))
+			if len(server.keysWithExpiry.keys[database]) == 0 {
+				server.keysWithExpiry.rwMutex.RUnlock()
+				return nil
+			}
+			idx := rand.Intn(len(server.keysWithExpiry.keys[database]))
 			key := server.keysWithExpiry.keys[database][idx]
 			server.keysWithExpiry.rwMutex.RUnlock()
 
